@@ -158,6 +158,18 @@ CHECKS = {
              "Non-enforced option lists are hints, as in the code.",
         technique="TLA+ schema + settings-case specs evaluated by TLC over the live settings catalog; per-case assignment and edge replay on real Settings; TLC trace validation",
     ),
+    "C10": dict(
+        text="LibraryMerge.tla models XS libraries as records of provenance ids (group structures, dose factors, velocity, file metadata, per-label neutron / gamma / "
+             "production data and chi flags) with Merge and MergeRefused as field-by-field transcriptions of IsotxsLibrary.merge and its helpers; MergedIsUnion "
+             "(order-free union: confluence + provenance), NoSilentCombine, RefusalsChangeNothing, RefusalJustified are checked by TLC over all scenarios of 3 (4) sources. "
+             "Macros.tla states zero / additivity / homogeneity / derived-sum laws over exact rationals. Every merge edge is replayed on real libraries written and re-read "
+             "by armi's own ISOTXS/GAMISO/PMATRX code (byte fingerprints identify whose data a library holds), every macro case runs the real functions on a real block, "
+             "and random 5-source merge histories are validated by TLC.",
+        design="3/C10 and 9",
+        note="Trusted: TLC, byte fingerprints of generated libraries (2-3 groups), the rational micro tables. CompxsLibrary.merge and mergeXSLibrariesInWorkingDirectory not "
+             "covered. Known finding (12 keys, one cause): a refused merge has already mutated the target.",
+        technique="TLA+ library-merge (provenance ids) and macro (exact rationals) specs + TLC; merge edges replayed on real libraries; TLC trace validation of merge histories",
+    ),
 }
 
 NOT_YET = "no specification-bound check has been built for this property yet in this session (planned, see DESIGN.md section 3)"
